@@ -2,7 +2,11 @@
 
 package tor
 
-import "github.com/jech/storrent/hash"
+import (
+	"github.com/jech/storrent/hash"
+	"github.com/jech/storrent/tracker"
+	"github.com/jech/storrent/webseed"
+)
 
 // VRegister builds a torrent with complete metadata and lists it (for the front-end harnesses).
 func VRegister(h hash.Hash, name string, files []Torfile, length int64) *Torrent {
@@ -12,4 +16,9 @@ func VRegister(h hash.Hash, name string, files []Torfile, length int64) *Torrent
 	t.infoComplete = 1
 	add(t)
 	return t
+}
+
+// VSetSources installs trackers and web seeds (unexported fields) for the front-end harnesses.
+func (t *Torrent) VSetSources(tr [][]tracker.Tracker, ws []webseed.Webseed) {
+	t.trackers, t.webseeds = tr, ws
 }
